@@ -4,7 +4,8 @@ import ChythonModel.Findings.C13Old
 Witnesses for the C13 findings (informational; failing to build is never an alarm).
 
 `old` is the effect table of /repo *before* the C13 `fix:` commits (frozen in `Findings/C13Old.lean`).  The analysis
-rejects it, and the executable model run on it exhibits each probed defect as a concrete trace.  (The former known finding — attribute write plus structural edit in one transaction — was repaired by /repo commit 5256c7c.)
+rejects it, and the executable model run on it exhibits each probed defect as a concrete trace.  (The plain case of the former known finding — attribute write plus structural edit in one transaction — was repaired by
+/repo commit 5256c7c; the last section is the gap that repair leaves.)
 -/
 namespace ChythonModel.Findings.C13
 open ChythonModel.Model ChythonModel.Model.C13 ChythonModel.Gen.CacheEffects ChythonModel.Spec.Deps
@@ -65,5 +66,25 @@ theorem witness_shared_vector :
 theorem witness_abort_keeps_pending :
     ((runHist old (freshWorld demoMol) [(.enter 0, []), (.addAtom 0 6 (some 10) false, []), (.exitExc 0, [])]).objs.map
       (·.changed)) = [some (some [10])] := by decide +kernel
+
+/-! ## still present: attribute write, public `fix_structure()`, write back, structural edit — in one transaction -/
+
+def bicyclopropyl : Mol :=
+  ⟨[(1, { z := 6 }), (2, { z := 6 }), (3, { z := 6 }), (4, { z := 6 }), (5, { z := 6 }), (6, { z := 6 })],
+   [(1, [(2, { order := 1 }), (3, { order := 1 })]), (2, [(1, { order := 1 }), (3, { order := 1 })]),
+    (3, [(2, { order := 1 }), (1, { order := 1 }), (4, { order := 1 })]),
+    (4, [(3, { order := 1 }), (5, { order := 1 }), (6, { order := 1 })]),
+    (5, [(4, { order := 1 }), (6, { order := 1 })]), (6, [(5, { order := 1 }), (4, { order := 1 })])]⟩
+
+/-- the full statement `Props.C13.HydrogensFresh` is false of today's code (known finding
+`attr-write+public-fix_structure+edit-in-txn`): the hydrogens of atom 6 were recomputed by the public `fix_structure()` for the
+intermediate radical state; the exit compares with the snapshot only, and the pending set `{5, 1}` does not contain atom 6 -/
+theorem hydrogens_fresh_false : ¬ HydrogensFresh := by
+  intro h
+  have := h bicyclopropyl
+    [(.enter 0, []), (.setRadical 0 6 true, []), (.fixStructure 0 true, []), (.setRadical 0 6 false, []),
+     (.addBond 0 5 1 1 false, []), (.exitOk 0, [])] (by decide +kernel)
+  revert this
+  decide +kernel
 
 end ChythonModel.Findings.C13
